@@ -156,7 +156,11 @@ func run(c *core.Ctx) {
 	{
 		var small, rest []clientreplay.CScript
 		for _, sc := range ct.Scripts {
-			if len(sc.Calls) <= 1 {
+			hasRead := false
+			for _, cl := range sc.Calls {
+				hasRead = hasRead || cl.C == "read"
+			}
+			if len(sc.Calls) <= 1 || hasRead { // (the few scripts with a blocked read are always run)
 				small = append(small, sc)
 			} else {
 				rest = append(rest, sc)
@@ -245,7 +249,7 @@ func run(c *core.Ctx) {
 			st.Handshakes, st.Reads, st.TimeoutEnded, st.Panics, st.Cancels, st.KARuns, st.RouteRuns)
 	}
 	c.Set("exhaustive", false)
-	c.Set("rule", "behaviours = (client) every sequence of up to 3 public calls -- Connect / ConnectAndAuthenticate[WithConfig] / Close / a blocked read -- on each route (direct, shared port, CCB), with and without a Security config, against a peer that is switched before each call to refuse, stall the dial, accept and FIN, accept and stay silent, answer garbage, serve or reject the handshake, with a context that is live, already cancelled or cancelled during the call; (server) every sequence of up to 4 environment steps on up to 2 connections -- dial, a raw command whose handler succeeds / fails / panics / blocks / keeps the connection / is not registered, a half-sent DC_AUTHENTICATE, releasing a blocked handler, closing the listener from outside, a temporary Accept error -- ending with the cancellation of Serve's context (at rest or racing with the last step); (tables) all 55 keep-alive configurations x 3 paths read back with getsockopt and all 18 address classes; behaviours with the same script form its set of admissible outcomes, printed by TLC from Gen_ClientConn with the intended design and with the deviations today's code is known to have; each script is one run of the REAL client against the scripted loopback peer / the REAL server.Serve against loopback clients; quick replays every one-call client script plus a seeded sample of 800 and 600 server scripts, thorough 6000 and 5000 (the tables completely, 4 concrete members per row); non-trivial = at least two calls / four steps / an explicit keep-alive configuration / a non-empty address")
+	c.Set("rule", "behaviours = (client) every sequence of up to 3 public calls -- Connect / ConnectAndAuthenticate[WithConfig] / Close / a blocked read -- on each route (direct, shared port, CCB), with and without a Security config, against a peer that is switched before each call to refuse, stall the dial, accept and FIN, accept and stay silent, answer garbage, serve or reject the handshake, with a context that is live, already cancelled or cancelled during the call; (server) every sequence of up to 4 environment steps on up to 2 connections -- dial, a raw command whose handler succeeds / fails / panics / blocks / keeps the connection / is not registered, a half-sent DC_AUTHENTICATE, releasing a blocked handler, closing the listener from outside, a temporary Accept error -- ending with the cancellation of Serve's context (at rest or racing with the last step); (tables) all 55 keep-alive configurations x 3 paths read back with getsockopt and all 18 address classes; behaviours with the same script form its set of admissible outcomes, printed by TLC from Gen_ClientConn with the intended design and with the deviations today's code is known to have; each script is one run of the REAL client against the scripted loopback peer / the REAL server.Serve against loopback clients; quick replays every one-call client script, every script with a blocked read, plus a seeded sample of 800 and 600 server scripts, thorough 6000 and 5000 (the tables completely, 4 concrete members per row); non-trivial = at least two calls / four steps / an explicit keep-alive configuration / a non-empty address")
 }
 
 type jsonRaw = json.RawMessage
